@@ -238,6 +238,8 @@ class Function:
         self._parent = None
         self._cfg = None
         self.rename = None          # decl id -> canonical (baseline) name, shared per TU; set by Facts
+        self.extra_locals = None    # decl ids of locals the baseline (nv/names.json) does not declare; set by Facts
+        self.inlined = 0
 
     @property
     def body(self):
@@ -322,6 +324,9 @@ class Function:
             if isinstance(p.get("t"), int):
                 p["t"] = types[p["t"]]
         self._nodes, self._parent = nodes, parent
+        if self.extra_locals and os.environ.get("NANO_NO_INLINE") != "1":
+            extra = self._inline_extra_locals()
+            commutative.extend(extra)
         if commutative:
             # canonical operand order of the built-in commutative operators `+ * == !=` (exactly commutative, also in IEEE arithmetic):
             # literals last, then by canonical text; innermost first (a visit is pre-order, so reversed order sees descendants first)
@@ -334,6 +339,167 @@ class Function:
                 if operand_key(b) < operand_key(a):
                     x["c"] = [b, a]
                     x["swapped"] = True
+
+    _PURE_BIN = ("+", "-", "*", "/")
+
+    def _inline_extra_locals(self):
+        """A local the baseline does not declare, of the form `const T name = <pure arithmetic>` with T the expression's own type and operands
+        that nothing in the function ever writes, is replaced by its initialiser at every use (and its declaration statement dropped from the
+        enclosing block): naming a sub-expression is a behaviour-preserving edit and the rules keep seeing the baseline's shape. Anything else
+        (operands written somewhere, captured by a lambda, a converting declaration, calls in the initialiser) is left alone."""
+        import copy
+        roots = list(self._inits) + ([self._body] if self._body else [])
+        cfg = self.raw.get("cfg")
+        cfg_roots = []
+        if cfg:
+            for b in cfg["blocks"]:
+                for e in b["el"]:
+                    if isinstance(e, dict):
+                        if "x" in e:
+                            cfg_roots.append(e["x"])
+                        if isinstance(e.get("e"), dict) and "x" in e["e"]:
+                            cfg_roots.append(e["e"]["x"])
+                c = b.get("cond")
+                if isinstance(c, dict) and "x" in c:
+                    cfg_roots.append(c["x"])
+        captured = set()
+
+        def writes(subroots):
+            """variables / members mentioned in a written position inside the given subtrees (over-approximation)"""
+            written, written_mem = set(), set()
+
+            def mark(n):
+                for y in walk(n):
+                    if y.get("k") == "ref" and y.get("d") is not None:
+                        written.add(y["d"])
+                    if y.get("k") == "mem":
+                        written_mem.add(y.get("n"))
+            for r in subroots:
+                for x in walk(r):
+                    k = x.get("k")
+                    if k == "bin" and x.get("op", "").endswith("=") and x["op"] not in ("==", "!=", "<=", ">="):
+                        mark(x["c"][0])
+                    elif k == "un" and x.get("op") in ("++", "--", "&"):
+                        mark(x["c"][0])
+                    elif k in ("call", "construct"):
+                        pk = x.get("pk", "")
+                        cs = x.get("c", ())
+                        off = 1 if k == "call" and (x.get("ck") == "mem" or (x.get("ck") == "op" and x.get("memop"))) else 0
+                        if off and not x.get("cconst") and cs and cs[0] is not None:
+                            mark(cs[0])
+                        if k == "call" and x.get("ck") == "op" and x.get("op", "").endswith("=") and x["op"] not in ("==", "!=", "<=", ">=") and cs and cs[0] is not None:
+                            mark(cs[0])
+                        for j, a_ in enumerate(cs[off:]):
+                            if a_ is not None and j < len(pk) and pk[j] in "rp":
+                                mark(a_)
+                    elif k == "lambda":
+                        for c_ in x.get("caps", ()):
+                            if c_.get("d") is not None:
+                                captured.add(c_["d"])
+                                if c_.get("byref", True):
+                                    written.add(c_["d"])
+            return written, written_mem
+        all_written, _ = writes(roots)
+
+        def pure(n, written, written_mem):
+            if n is None:
+                return False
+            k = n.get("k")
+            if k == "ref":
+                return n.get("dk") in ("var", "parm", "bind") and n.get("d") not in written and n.get("d") not in self.extra_locals
+            if k in ("int", "float", "this"):
+                return True
+            if k == "mem":
+                return n.get("n") not in written_mem and all(pure(c, written, written_mem) for c in n.get("c", ()))
+            if k in ("cast", "paren"):
+                return all(pure(c, written, written_mem) for c in n.get("c", ()))
+            if k == "bin":
+                return n.get("op") in self._PURE_BIN and all(pure(c, written, written_mem) for c in n["c"])
+            if k == "un":
+                return n.get("op") == "-" and pure(n["c"][0], written, written_mem)
+            return False
+
+        def bare(t):
+            return (t or "").replace("const ", "").strip()
+        inl = {}
+        for r in roots:
+            for blk in walk(r):
+                if blk.get("k") != "block":
+                    continue
+                cs = blk.get("c", ())
+                for k_, st in enumerate(cs):
+                    if st is None or st.get("k") != "declstmt" or len(st.get("c", ())) != 1:
+                        continue
+                    x = st["c"][0]
+                    if x is None or x.get("k") != "var" or x.get("d") not in self.extra_locals or x.get("d") in captured or x.get("d") in all_written or \
+                            len(x.get("c", ())) != 1 or x["c"][0] is None or x.get("bindings"):
+                        continue
+                    t = x.get("t") or ""
+                    init = x["c"][0]
+                    while init.get("k") in ("paren",) and init.get("c"):
+                        init = init["c"][0]
+                    if not (t.startswith("const ") and "&" not in t and "*" not in t and bare(t) == bare(init.get("t"))):
+                        continue
+                    # every use lies in a later statement of the same block, and nothing from the declaration to the last use writes an operand
+                    uses_total = sum(1 for r2 in roots for y in walk(r2) if y.get("k") == "ref" and y.get("d") == x["d"])
+                    last, inside = k_, 0
+                    for j in range(k_ + 1, len(cs)):
+                        cnt = sum(1 for y in walk(cs[j]) if y.get("k") == "ref" and y.get("d") == x["d"]) if cs[j] is not None else 0
+                        if cnt:
+                            last, inside = j, inside + cnt
+                    if inside != uses_total or inside == 0:
+                        continue
+                    w, wm = writes([c_ for c_ in cs[k_ + 1:last + 1] if c_ is not None])
+                    if x["d"] in captured:
+                        continue
+                    if pure(init, w, wm):
+                        inl[x["d"]] = init
+        if not inl:
+            return []
+        fresh = [max(list(self._nodes) + [0]) + 1]
+        added = []
+
+        def clone(n):
+            c = copy.deepcopy(n)
+            for y in walk(c):
+                y["i"] = fresh[0]
+                fresh[0] += 1
+                y.pop("span", None)
+                if y.get("k") == "bin" and y.get("op") in _COMMUTATIVE:
+                    y.pop("ordered", None)
+                    added.append(y)
+            return c
+
+        def rewrite(root):
+            for x in list(walk(root)):
+                cs = x.get("c")
+                if not cs:
+                    continue
+                for j, ch in enumerate(cs):
+                    if ch is not None and ch.get("k") == "ref" and ch.get("d") in inl:
+                        cs[j] = clone(inl[ch["d"]])
+                        self.inlined += 1
+                if x.get("k") == "block":
+                    keep = [ch for ch in cs if not (ch is not None and ch.get("k") == "declstmt" and ch.get("c") and
+                                                    all(v is not None and v.get("k") == "var" and v.get("d") in inl for v in ch["c"]))]
+                    if len(keep) != len(cs):
+                        x["c"] = keep
+        for r in roots + cfg_roots:
+            rewrite(r)
+        # re-index
+        nodes, parent = {}, {}
+        for r in roots + cfg_roots:
+            stack = [(r, None)]
+            while stack:
+                x, p_ = stack.pop()
+                if x is None:
+                    continue
+                nodes.setdefault(x["i"], x)
+                parent.setdefault(x["i"], p_)
+                for ch in reversed(x.get("c", ())):
+                    stack.append((ch, x))
+        self._nodes, self._parent = nodes, parent
+        return added
 
     def node(self, i):
         self._index()
@@ -531,6 +697,9 @@ class Facts:
             anames = [a[1] for a in A]
             bnames = [b[1] for b in B]
             if all(bn in anames for bn in bnames):
+                extra = {a[3] for a in A if a[0] == "v" and a[1] and a[1] not in bnames and a[3] is not None}
+                if extra:
+                    f.extra_locals = extra    # new named sub-expressions (see Function._inline_extra_locals)
                 continue                      # nothing renamed away
             used_a, used_b = set(), set()
             for i, a in enumerate(A):
